@@ -76,7 +76,7 @@ def int_map(ctx) -> None:
             for r, pol, raw in fv.rfacts_at(n.id):
                 if isinstance(r, ast.Compare) and len(r.ops) == 1 and isinstance(r.ops[0], ast.Eq) and pol and is_name(r.left, arg) and isinstance(r.comparators[0], ast.Constant):
                     ks.append(r.comparators[0].value)
-            v = n.ast.value
+            v = fv.res.resolve(n.ast.value, n.id)
             member = v.attr if isinstance(v, ast.Attribute) and is_name(v.value, "Tip") else None
             if len(ks) != 1 or member is None:
                 ctx.rep.inconclusive(rule, f"{f.qualname}/return[{show(v)}]", f"return `{stmt_key(n.ast)}` is not guarded by exactly one `{arg} == k` (table lookup?)", where=f.where(n.ast))
@@ -86,7 +86,7 @@ def int_map(ctx) -> None:
     ctx.rep.check(sorted(pairs) == list(range(1, 9)), rule, f"{f.qualname}/domain", "exactly the numbers 1..8 are mapped", f"mapped numbers are {sorted(pairs)}; expected 1..8", where=f.where())
     # every other path raises ValueError
     normal = [n for n in fv.cfg.nodes if n.kind == "stmt" and isinstance(n.ast, ast.Return)]
-    falls_through = fv.cfg.exit in {s for n in fv.cfg.nodes if not (n.kind == "stmt" and isinstance(n.ast, ast.Return)) for s, lab in n.succ}
+    falls_through = fv.cfg.exit in {s for n in fv.cfg.nodes if not (n.kind == "stmt" and isinstance(n.ast, ast.Return)) for s, lab in n.succ if n.id in fv.cfg.reachable_from(fv.cfg.entry)}
     raises = [raise_class(fv, s)[0] for s in own_walk(f.node) if isinstance(s, ast.Raise)]
     ctx.rep.check(not falls_through and raises == ["ValueError"], rule, f"{f.qualname}/else", "everything else raises ValueError", "numbers outside 1..8 do not end in raise ValueError", where=f.where())
 
@@ -281,11 +281,11 @@ def aggregate_evo(ctx) -> None:
             ctx.rep.inconclusive(rule, f"commands.{name}", "formatter not found")
             continue
         fv = ctx.fv(f)
-        rets = [n for n in fv.cfg.nodes if n.kind == "stmt" and isinstance(n.ast, ast.Return) and isinstance(n.ast.value, ast.JoinedStr)]
+        rets = fv.template_returns()
         if len(rets) != 1:
             ctx.rep.inconclusive(rule, f"{f.qualname}/template", "command template not found")
             continue
-        parts = template_parts(rets[0].ast.value)
+        parts = template_parts(rets[0].value)
         holes = [p for p in parts if isinstance(p, Hole)]
         first = holes[0].expr
         n_sites += 1
